@@ -654,6 +654,17 @@ func (e *Engine) prefixIntrinsic(name string) intrinsic {
 		return func(e *Engine, s *State, t *Thread, f *Frame, args []Value, res ssa.Value) (Value, bool) {
 			return ret(nil)
 		}
+	case strings.HasPrefix(name, "log/slog."), strings.HasPrefix(name, "(*log/slog.Logger)."):
+		return func(e *Engine, s *State, t *Thread, f *Frame, args []Value, res ssa.Value) (Value, bool) {
+			if res != nil {
+				if _, isTuple := res.Type().(*types.Tuple); !isTuple && res.Type() != nil {
+					if tt, ok := res.Type().(*types.Tuple); ok && tt.Len() == 0 {
+						return ret(nil)
+					}
+				}
+			}
+			return ret(nil)
+		}
 	case strings.HasPrefix(name, "(*github.com/pion/randutil.mathRandomGenerator)."):
 		m := name[strings.LastIndex(name, ".")+1:]
 		return func(e *Engine, s *State, t *Thread, f *Frame, args []Value, res ssa.Value) (Value, bool) {
